@@ -400,6 +400,20 @@ def run_check(prop_id, tier):
         except Exception:
             sys.stderr.write("HARNESS ERROR in extra():\n%s\n" % traceback.format_exc())
             return 2
+    # coverage-guided campaign (atheris) where the property module asks for one
+    fz = getattr(mod, "FUZZ", {}).get(tier)
+    if fz and not failures:
+        try:
+            info, ffail = run_fuzz(prop_id, seed, fz)
+        except Exception:
+            sys.stderr.write("HARNESS ERROR in coverage-guided campaign:\n%s\n" % traceback.format_exc())
+            return 2
+        rec.extra["engines"] = {"hypothesis": {"evaluations": int(rec.evaluations), "distinct_nontrivial": len(rec.nontrivial)},
+                                "atheris": info}
+        for k, v in info.get("known", {}).items():
+            rec.known[k] += v
+        if ffail:
+            failures.append(ffail)
     wall = time.time() - t0
     print("[%s %s seed=%d] evaluations=%d distinct_nontrivial=%d inconclusive=%d wall=%.1fs" % (
         prop_id, tier, seed, rec.evaluations, len(rec.nontrivial),
@@ -442,6 +456,65 @@ def run_check(prop_id, tier):
                          % (inc, rec.evaluations))
         return 2
     return code
+
+
+def run_fuzz(prop_id, seed, spec):
+    """Run the atheris campaigns of pbt/fuzz_target.py as subprocesses and merge their side files.
+
+    spec: {"runs": N per campaign, "campaigns": [(mode, seed offset), ...]}.  Returns (info dict, failure or None)."""
+    import shutil
+    import subprocess
+    import tempfile
+    from pbt import env
+    try:
+        env.ensure_deps(extra=(("atheris", "atheris"),))
+    except Exception as e:
+        return {"skipped": "atheris is not installable here: %s" % (str(e)[:200],)}, None
+    scratch = tempfile.mkdtemp(prefix="pygom_fuzz_", dir=env._scratch_root())
+    procs = []
+    try:
+        for i, (mode, off) in enumerate(spec["campaigns"]):
+            side = os.path.join(scratch, "side_%d.json" % i)
+            corpus = os.path.join(scratch, "corpus_%d" % i)
+            log = open(os.path.join(scratch, "log_%d.txt" % i), "w")
+            cmd = [sys.executable, "-W", "ignore", "-m", "pbt.fuzz_target", prop_id, str(int(spec["runs"])),
+                   str(seed * 100 + off), side, corpus, mode]
+            procs.append((mode, seed * 100 + off, side, log,
+                          subprocess.Popen(cmd, cwd=VERIF, stdout=log, stderr=subprocess.STDOUT)))
+        camp, dumps, failure = [], [], None
+        for mode, cseed, side, log, pr in procs:
+            try:
+                rc = pr.wait(timeout=spec.get("timeout", 3600))
+            except subprocess.TimeoutExpired:
+                pr.kill()
+                rc = "timeout"
+            log.close()
+            d = json.load(open(side)) if os.path.exists(side) else None
+            if d is None:
+                raise RuntimeError("campaign %s/%s wrote no side file (exit %s):\n%s" % (
+                    mode, cseed, rc, open(log.name).read()[-2000:]))
+            if d.get("failure") and failure is None:
+                failure = d["failure"]
+            elif rc not in (0, "timeout") and not d.get("failure"):
+                raise RuntimeError("campaign %s/%s exited with %s without a recorded failure:\n%s" % (
+                    mode, cseed, rc, open(log.name).read()[-2000:]))
+            camp.append(dict(mode=mode, seed=cseed, libfuzzer_runs=d["libfuzzer_runs"],
+                             property_executions=d["property_executions"], distinct_nontrivial=len(d["nontrivial"]),
+                             wall_s=d["wall_s"], exit=rc))
+            dumps.append(d)
+        m = merge(dumps)
+        info = dict(campaigns=camp, property_executions=int(m.evaluations), distinct_nontrivial=len(m.nontrivial),
+                    label_histogram=dict(sorted(m.labels.items())), inconclusive=dict(m.inconclusive), known=dict(m.known),
+                    samples=m.samples[:2],
+                    note="libFuzzer mutates bytes, Hypothesis' fuzz_one_input decodes them with the property's own strategy, "
+                         "the property's oracle runs inside the target; only pygom.* is instrumented; property_executions "
+                         "counts inputs that decoded to a complete case")
+        return info, failure
+    finally:
+        for _m, _s, _side, log, pr in procs:
+            if pr.poll() is None:
+                pr.kill()
+        shutil.rmtree(scratch, ignore_errors=True)
 
 
 def run_replay(prop_id, path):
